@@ -663,4 +663,178 @@ theorem mul_2exp_spec (w u : Mpz) (cnt : Nat) (hw : 1 ≤ w.alloc) (hu : WF u) :
   · simp only [hs, decide_true, if_true]; push_cast; ring
   · simp only [hs, decide_false, Bool.false_eq_true, if_false]; push_cast; ring
 
+/-! ## mpz_mul_ui / mpz_mul_si / mpz_mul -/
+
+theorem size_ne_zero {u : Mpz} (hu : WF u) (h : u.size ≠ 0) : u.d ≠ [] := by
+  obtain ⟨_, _, hul, _⟩ := (WF_iff u).mp hu
+  intro hd; rw [hd] at hul; simp at hul; omega
+
+/-- `mul_1` followed by `wp[n] = cy; n += (cy != 0)`: the magnitude `d·y`. -/
+theorem mul_1_take (d : List Nat) (y : Nat) (hd : Norm d) (hne : d ≠ []) (hy : y < B) (hy0 : y ≠ 0) :
+    val (((mul_1 d y).1 ++ [(mul_1 d y).2]).take (d.length + (if (mul_1 d y).2 != 0 then 1 else 0)))
+      = val d * y ∧
+    (((mul_1 d y).1 ++ [(mul_1 d y).2]).take (d.length + (if (mul_1 d y).2 != 0 then 1 else 0))).length
+      = d.length + (if (mul_1 d y).2 != 0 then 1 else 0) ∧
+    Norm (((mul_1 d y).1 ++ [(mul_1 d y).2]).take (d.length + (if (mul_1 d y).2 != 0 then 1 else 0))) := by
+  obtain ⟨mv, mc, ml, mn⟩ := K.mul_1_val d y hd.1 hy
+  have hlow := hd.lower hne
+  have h1 : val d * 1 ≤ val d * y := Nat.mul_le_mul_left _ (Nat.pos_of_ne_zero hy0)
+  obtain ⟨tv, tl, tn⟩ := take_carry (mul_1 d y).1 (mul_1 d y).2 d.length mn ml mc
+    (Or.inr (by omega))
+  exact ⟨tv.trans mv, tl, tn⟩
+
+theorem mul_i_spec (w mult : Mpz) (sml : Nat) (sneg : Bool) (hw : 1 ≤ w.alloc) (hm : WF mult)
+    (hs : sml < B) :
+    WF (mul_i w mult sml sneg) ∧
+    toInt (mul_i w mult sml sneg) = toInt mult * (if sneg then -(sml : Int) else (sml : Int)) := by
+  obtain ⟨_, _, hml, hmn⟩ := (WF_iff mult).mp hm
+  unfold mul_i
+  dsimp only
+  by_cases h0 : (mult.size == 0 || sml == 0) = true
+  · rw [if_pos h0]
+    obtain ⟨wf, ti⟩ := WF_zero w hw
+    refine ⟨wf, ?_⟩
+    rw [ti]
+    rcases (by simpa using h0 : mult.size = 0 ∨ sml = 0) with h | h
+    · rw [toInt_zero_of_size hm h]; simp
+    · subst h; simp
+  rw [if_neg h0]
+  have ⟨hm0, hs0⟩ : mult.size ≠ 0 ∧ sml ≠ 0 := by simpa using h0
+  have hne := size_ne_zero hm hm0
+  obtain ⟨ga1, ga2⟩ := grow_alloc w (mult.size.natAbs + 1)
+  obtain ⟨tv, tl, tn⟩ := mul_1_take mult.d sml hmn hne hs hs0
+  rw [hml] at tv tl tn
+  obtain ⟨wf, ti⟩ := mk_spec (grow w (mult.size.natAbs + 1)).alloc _
+    (decide (mult.size < 0) != sneg) _ tl tn (by split_ifs <;> omega) (by omega)
+  refine ⟨wf, ?_⟩
+  rw [ti, tv, toInt_eq mult]
+  unfold sval
+  cases sneg <;> by_cases hs : mult.size < 0 <;> simp [hs]
+
+theorem diffSign_mul (a b : Int) (da db : List Nat) :
+    sval a da * sval b db =
+      if diffSign a b then -((val da * val db : Nat) : Int) else ((val da * val db : Nat) : Int) := by
+  unfold sval diffSign
+  by_cases ha : a < 0 <;> by_cases hb : b < 0 <;> simp [ha, hb]
+
+/-- a product buffer of `un+vn` limbs with `n -= (wp[n-1] == 0)` -/
+theorem prod_strip (wp a b : List Nat) (ha : Norm a) (hb : Norm b) (hane : a ≠ []) (hbne : b ≠ [])
+    (hv : val wp = val a * val b) (hl : Limbs wp) (hn : wp.length = a.length + b.length) :
+    val (wp.take (a.length + b.length - (if topLimb wp == 0 then 1 else 0))) = val a * val b ∧
+    (wp.take (a.length + b.length - (if topLimb wp == 0 then 1 else 0))).length
+      = a.length + b.length - (if topLimb wp == 0 then 1 else 0) ∧
+    Norm (wp.take (a.length + b.length - (if topLimb wp == 0 then 1 else 0))) := by
+  have hla := ha.lower hane
+  have hlb := hb.lower hbne
+  have ha1 : a.length ≠ 0 := fun h => hane (List.length_eq_zero_iff.mp h)
+  have hb1 : b.length ≠ 0 := fun h => hbne (List.length_eq_zero_iff.mp h)
+  have hlow : B ^ (a.length + b.length - 2) ≤ val wp := by
+    have e : a.length + b.length - 2 = (a.length - 1) + (b.length - 1) := by omega
+    rw [e, pow_add, hv]
+    exact Nat.mul_le_mul hla hlb
+  obtain ⟨tv, tl, tn⟩ := strip_top wp (a.length + b.length) hn hl (Or.inr hlow)
+  exact ⟨tv.trans hv, tl, tn⟩
+
+theorem mul_spec (thr : Nat) (al : Alias) (w u v : Mpz) (hw : 1 ≤ w.alloc) (hu : WF u) (hv : WF v)
+    (huv : al.uv = true → u = v) :
+    WF (mul thr al w u v) ∧ toInt (mul thr al w u v) = toInt u * toInt v := by
+  obtain ⟨_, _, hul, hun⟩ := (WF_iff u).mp hu
+  obtain ⟨_, _, hvl, hvn⟩ := (WF_iff v).mp hv
+  unfold mul
+  dsimp only
+  by_cases h0 : (u.size.natAbs == 0 || v.size.natAbs == 0) = true
+  · rw [if_pos h0]
+    obtain ⟨wf, ti⟩ := WF_zero w hw
+    refine ⟨wf, ?_⟩
+    rw [ti]
+    rcases (by simpa using h0 : u.size = 0 ∨ v.size = 0) with h | h
+    · rw [toInt_zero_of_size hu h]; simp
+    · rw [toInt_zero_of_size hv h]; simp
+  rw [if_neg h0]
+  have ⟨hu0, hv0⟩ : u.size ≠ 0 ∧ v.size ≠ 0 := by simpa using h0
+  have hune := size_ne_zero hu hu0
+  have hvne := size_ne_zero hv hv0
+  rw [toInt_eq u, toInt_eq v, diffSign_mul]
+  by_cases h1 : (v.size.natAbs == 1) = true
+  · -- mul.c:69-78
+    rw [if_pos h1]
+    have h1' : v.size.natAbs = 1 := by simpa using h1
+    obtain ⟨y, hy⟩ := List.length_eq_one_iff.mp (hvl.trans h1')
+    have hyB : y < B := by have := hvn.1; rw [hy] at this; exact (Limbs_cons.mp this).1
+    have hy0 : y ≠ 0 := by have := hvn.2; rw [hy] at this; simpa using this
+    have hh : v.d.headD 0 = y := by rw [hy]; rfl
+    have hvv : val v.d = y := by rw [hy]; simp
+    rw [hh, hvv]
+    obtain ⟨ga1, ga2⟩ := grow_alloc w (u.size.natAbs + 1)
+    obtain ⟨tv, tl, tn⟩ := mul_1_take u.d y hun hune hyB hy0
+    rw [hul] at tv tl tn
+    obtain ⟨wf, ti⟩ := mk_spec (grow w (u.size.natAbs + 1)).alloc _ (diffSign u.size v.size) _ tl tn
+      (by split_ifs <;> omega) (by omega)
+    exact ⟨wf, by rw [ti, tv]⟩
+  rw [if_neg h1]
+  -- the four ways the product buffer is produced all give the same value
+  have key : ∀ wp : List Nat, val wp = val u.d * val v.d → Limbs wp →
+      wp.length = u.size.natAbs + v.size.natAbs → ∀ a : Nat, 1 ≤ a → u.size.natAbs + v.size.natAbs ≤ a →
+      WF (Mpz.mk a (sgn (diffSign u.size v.size)
+             (u.size.natAbs + v.size.natAbs - (if topLimb wp == 0 then 1 else 0)))
+           (wp.take (u.size.natAbs + v.size.natAbs - (if topLimb wp == 0 then 1 else 0)))) ∧
+      toInt (Mpz.mk a (sgn (diffSign u.size v.size)
+             (u.size.natAbs + v.size.natAbs - (if topLimb wp == 0 then 1 else 0)))
+           (wp.take (u.size.natAbs + v.size.natAbs - (if topLimb wp == 0 then 1 else 0)))) =
+        if diffSign u.size v.size then -((val u.d * val v.d : Nat) : Int)
+        else ((val u.d * val v.d : Nat) : Int) := by
+    intro wp hwv hwl hwn a ha1 ha
+    obtain ⟨tv, tl, tn⟩ := prod_strip wp u.d v.d hun hvn hune hvne hwv hwl (by rw [hwn, hul, hvl])
+    rw [hul, hvl] at tv tl tn
+    obtain ⟨wf, ti⟩ := mk_spec a _ (diffSign u.size v.size) _ tl tn (by split_ifs <;> omega) ha1
+    exact ⟨wf, by rw [ti, tv]⟩
+  obtain ⟨p1, p2, p3⟩ := K.mul_basecase_val u.d v.d hun.1 hvn.1 hvne
+  obtain ⟨q1, q2, q3⟩ := K.mul_basecase_val v.d u.d hvn.1 hun.1 hune
+  obtain ⟨s1, s2, s3⟩ := K.mul_basecase_val u.d u.d hun.1 hun.1 hune
+  obtain ⟨t1, t2, t3⟩ := K.mul_basecase_val v.d v.d hvn.1 hvn.1 hvne
+  rw [hul, hvl] at p3 q3
+  rw [hul] at s3
+  rw [hvl] at t3
+  by_cases hb : (decide (u.size.natAbs + v.size.natAbs ≤ thr) && !al.wu && !al.wv) = true
+  · -- mul.c:83-103
+    rw [if_pos hb]
+    obtain ⟨ga1, ga2⟩ := grow_alloc w (u.size.natAbs + v.size.natAbs)
+    by_cases he : (u.size.natAbs == v.size.natAbs) = true
+    · rw [if_pos he]
+      by_cases hsq : al.uv = true
+      · rw [if_pos hsq]
+        have huv' := huv hsq
+        subst huv'
+        exact key _ s1 s2 s3 _ (by omega) ga1
+      · rw [if_neg hsq]
+        exact key _ p1 p2 p3 _ (by omega) ga1
+    · rw [if_neg he]
+      by_cases hgt : u.size.natAbs > v.size.natAbs
+      · rw [if_pos hgt]; exact key _ p1 p2 p3 _ (by omega) ga1
+      · rw [if_neg hgt]
+        exact key _ (by rw [q1]; ring) q2 (by rw [q3]; ring) _ (by omega) ga1
+  · -- mul.c:105-166
+    rw [if_neg hb]
+    have hal : 1 ≤ (if w.alloc < u.size.natAbs + v.size.natAbs then u.size.natAbs + v.size.natAbs
+        else w.alloc) ∧ u.size.natAbs + v.size.natAbs ≤
+        (if w.alloc < u.size.natAbs + v.size.natAbs then u.size.natAbs + v.size.natAbs
+        else w.alloc) := by split_ifs <;> omega
+    by_cases hsw : u.size.natAbs < v.size.natAbs
+    · simp only [if_pos hsw]
+      have hne' : u.size.natAbs ≠ v.size.natAbs := by omega
+      have hcond : (al.uv && v.size.natAbs == u.size.natAbs) = false := by
+        have : (v.size.natAbs == u.size.natAbs) = false := by simp; omega
+        rw [this]; simp
+      rw [hcond]
+      simp only [Bool.false_eq_true, if_false]
+      exact key _ (by rw [q1]; ring) q2 (by rw [q3]; ring) _ hal.1 hal.2
+    · simp only [if_neg hsw]
+      by_cases hsq : (al.uv && u.size.natAbs == v.size.natAbs) = true
+      · rw [if_pos hsq]
+        have huv' := huv (by simp at hsq; exact hsq.1)
+        subst huv'
+        exact key _ s1 s2 s3 _ hal.1 hal.2
+      · rw [if_neg hsq]
+        exact key _ p1 p2 p3 _ hal.1 hal.2
+
 end Mpir.Mpz
